@@ -78,11 +78,12 @@ REGISTRY.update({
                 theorems=["C09_recover_holds", "C09_rounding_holds", "C09_linear_shape_holds", "C09_convexe_shape_holds"],
                 corr=["rec.status", "rec.dmg", "rec.hdmg", "rec.arb", "sched.status", "delta.total"],
                 monitors=[M.mon_c09], extra=X.extra_c09),
-    "C10": dict(**_p(EV_FILES + ["Proofs/C10Proofs.v"], ["Props/C10.v"], ["Phases", "Arb"]),
+    "C10": dict(**_p(EV_FILES + ["Proofs/C10Proofs.v", "Proofs/C10SessionProofs.v"], ["Props/C10.v"], ["Phases", "Arb"]),
                 theorems=["C10_activate_holds", "C10_start_holds", "C10_ledgers_monotone_holds", "C10_step_monotone_holds",
-                          "C10_prefix_holds"],
-                corr=["sched.status", "sched.rid", "sched.count", "delta.total", "rec.status", "reb.status"],
-                monitors=[M.mon_c10]),
+                          "C10_prefix_holds", "C10_session_holds", "C10_late_registration_holds", "C10_late_registration_any_id_refuted"],
+                corr=["sched.status", "sched.rid", "sched.count", "delta.total", "rec.status", "reb.status",
+                      "reg.status", "reg.rid", "reg.dmg", "reg.hdmg", "reg.arb", "reg.ledger_i", "reg.ledger_h", "reg.fresh"],
+                monitors=[M.mon_c10], extra=X.extra_c10),
     "C11": dict(**_p(EV_FILES + ["Proofs/C07Proofs.v", "Proofs/C11Proofs.v"], ["Props/C11.v"], ["Layout", "Ctor"]),
                 theorems=["C11_ids_activate_holds", "C11_ids_start_holds", "C11_ids_ledgers_holds", "C11_ids_step_holds",
                           "C11_no_internal_error_holds", "C07_perm_holds"],
@@ -108,8 +109,9 @@ REGISTRY.update({
                 theorems=["C02_refines_holds", "C02_orders_holds", "C02_compose_holds"],
                 corr=ECON_OBS,
                 monitors=[M.mon_c03, M.mon_c04, M.mon_c05, M.mon_c06, M.mon_c14]),
-    "C12": dict(**_p(["Model/Ctor.v", "Spec/StatementsIO.v", "Corr/CheckIO.v", "Proofs/C12Proofs.v"], ["Props/C12.v"]),
-                theorems=["C12_total_holds", "C12_proportions_holds", "C12_positive_holds", "C12_product_holds", "C12_reject_holds"],
+    "C12": dict(**_p(["Model/Ctor.v", "Spec/StatementsIO.v", "Corr/CheckIO.v", "Proofs/C12Proofs.v", "Proofs/C12LblProofs.v"], ["Props/C12.v"]),
+                theorems=["C12_total_holds", "C12_proportions_holds", "C12_positive_holds", "C12_product_holds", "C12_reject_holds",
+                          "C12_labelled_holds"],
                 corr=[], monitors=[], extra=X.extra_c12, no_suite=True),
     "C13": dict(**_p(EV_FILES + ["Spec/StatementsScale.v", "Proofs/C08Proofs.v", "Proofs/C13ScaleProofs.v"], ["Props/C13.v"], ["Ledger"]),
                 theorems=["C13_conversion_holds", "C13_scale_cap_holds", "C13_scale_opt_holds", "C13_scale_production_holds",
